@@ -519,6 +519,36 @@ def run(ch, idx, tier):
                 d_ = [x for x in diff_tokens(snap, now, 6) if not x[0].endswith(".name")]
                 if d_:
                     violate("copy_shares_state_with_original", f"{kind_}.copy", {"diff": d_[:3]})
+        # a copy is independent of its original: entering values in EVERY series of a fresh copy (the in-place
+        # TimeSeries.insert users edit books with) leaves the original's content as it was
+        def _all_series(obj, kind_):
+            if kind_ == "parset":
+                return [ts_ for par_ in obj.all_pars() for ts_ in par_.ts.values()]
+            if kind_ == "progset":
+                return [ts_ for pr_ in obj.programs.values() for ts_ in (pr_.spend_data, pr_.unit_cost, pr_.capacity_constraint, pr_.saturation, pr_.coverage, pr_.baseline_spend)]
+            out_ = [ts_ for td_ in obj.tdve.values() for ts_ in td_.ts.values()]
+            for tdc_ in list(obj.transfers) + list(obj.interpops):
+                out_ += list(tdc_.ts.values())
+            return out_
+
+        for kind_, obj in (("parset", parset), ("progset", progset), ("data", data)):
+            if obj is None:
+                continue
+            snap_ = flatten(obj)
+            how = ch.choose(f"final_copy.{kind_}", 2)
+            try:
+                cp_ = sc.dcp(obj) if (how == 0 or not hasattr(obj, "copy")) else obj.copy()
+                for ts_ in _all_series(cp_, kind_):
+                    if isinstance(ts_.t, list):
+                        ts_.insert(1990.5, 0.123)
+            except Exception:
+                bump("final_copy_edit_refused")
+                continue
+            bump("probe:copy_then_edit_every_series")
+            if flatten(obj) != snap_:
+                d_ = [x for x in diff_tokens(snap_, flatten(obj), 6) if not x[0].endswith(".name")]
+                if d_:
+                    violate("copy_shares_state_with_original", f"{kind_}.{'dcp' if how == 0 else 'copy'}+edit", {"diff": d_[:3]})
         # -----------------------------------------------------------------------------------
         # round trips
         # -----------------------------------------------------------------------------------
